@@ -14,5 +14,15 @@ class BoundCallable(CanCustomize, object):
             # Update wrapper if we can, but not fatal if we can't
             pass
 
+        # Executors created by with_* calls on this object inherit the name
+        # of the executor we're bound to, as they would if created from the
+        # executor itself. (Done after update_wrapper, which copies fn's
+        # attributes onto us.)
+        self.__dict__.pop("_name", None)
+        for name_attr in ("_name", "_CustomizableThreadPoolExecutor__name"):
+            if hasattr(executor, name_attr):
+                self._name = getattr(executor, name_attr)
+                break
+
     def __call__(self, *args, **kwargs):
         return self.__executor.submit(self.__fn, *args, **kwargs)
